@@ -8,6 +8,23 @@
 #ifndef C20_REPS
 #define C20_REPS 2
 #endif
+namespace {
+   // prints every expression-derived object of a zoo case (as expression and as declaration) while accesses are classified
+   struct Print_nodes {
+      const ipr::Lexicon* lx; Tracker* tr;
+      void generative() { }
+      template<class I> void node(const I& n) {
+         tr->template node<I>(n);
+         if constexpr (std::is_base_of_v<ipr::Expr, I>) {
+            const ipr::Expr& e = n;
+            { std::ostringstream& os = *new std::ostringstream; Printer pp { *lx, os }; vp_assert(vp_outcome([&] { pp << xpr_expr(e); }) != 2, 6); }
+            { std::ostringstream& os = *new std::ostringstream; Printer pp { *lx, os }; pp.print_locations = true; vp_assert(vp_outcome([&] { pp << xpr_decl(e, true); }) != 2, 6); }
+         }
+      }
+      void operands(bool) { }
+      template<class N> void typed(const N&, const ipr::Type*) { }
+   };
+}
 extern "C" void h_isolation(void) {
    unsigned total = zoo::count();
    vp_phase(1);
@@ -21,10 +38,10 @@ extern "C" void h_isolation(void) {
    tb.snapshot();
    vp_phase(2);
    // ---- operations on Lexicon A: every load/store classified by the engine
-   zoo::World* a = new zoo::World;
+   zoo::World* a = new zoo::World; a->printable = true;
    unsigned which = vp_pick(total);
    vp_observe(1, which);
-   Tracker ta; zoo::build(*a, which, ta); ta.snapshot();
+   Tracker ta; Print_nodes pn { &a->lx, &ta }; zoo::build(*a, which, pn); ta.snapshot();
    a->concrete = true;
    zoo::Null_visitor nv;
    for (int r = 0; r < C20_REPS; ++r) zoo::build(*a, which, nv);
